@@ -66,8 +66,15 @@ def run_property(pid, mod, tier, seed, t0):
                        "case": c.meta})
     # 4. search when the tie is broken and no monitor failure is at hand
     searched = 0
-    if broken and not failures and hasattr(mod, "search"):
-        more = mod.search(tier, seed, budget)
+    def _unlisted(fs):
+        return [cf for cf in fs if fw.match_known(pid, dict(cf[0].meta, **cf[1]), known) is None]
+    if broken and not _unlisted(failures) and hasattr(mod, "search"):
+        import inspect
+        if "hint" in inspect.signature(mod.search).parameters:
+            # directed search: more runs of the configurations next to the ones where model and code part ways
+            more = mod.search(tier, seed, budget, hint=[b["case"] for b in broken if isinstance(b.get("case"), dict)])
+        else:
+            more = mod.search(tier, seed, budget)
         searched = len(more)
         for c in more:
             for f in c.monitor:
